@@ -35,6 +35,11 @@ open Upnp PyDict
 theorem gen_shapes : genCfg.skipStale = false ∧ genCfg.delEarly = false ∧ genCfg.clearDone = true
     ∧ Gen.C12Profile.shapesPinned = true := by decide
 
+/-- the subscribe loop iterates the profile device's services **including those of embedded devices** (the
+    profile resolves its services through `find_service()`, which descends): the `n` services the model
+    subscribes are all of `profile_device.all_services` that belong to the profile -/
+theorem gen_subscribes_embedded : Gen.C12Profile.subscribesEmbedded = true := by decide
+
 /-- the renewal margin is positive and shorter than the timeout asked for -/
 theorem gen_constants : 0 < genCfg.tol ∧ genCfg.tol < genCfg.subTimeout := by decide
 
